@@ -346,6 +346,16 @@ def family(fam, tier):
                     + [[8.0 - 8.0 * i / k, 4000.0] for i in range(k)] + [[0.0, 4000.0 - 4000.0 * i / k] for i in range(k)])
             yield "Polygon", [ring]
             yield "MultiPolygon", [[ring], [[[9.0, 0.0], [10.0, 0.0], [10.0, 125.0]]]]
+        # rings and lines that pass through an earlier vertex again (six-vertex rings through their first vertex, closed contours and
+        # figure-eights drawn as line strings): every listed vertex is part of the shape, in order
+        a, b, c, d, e = [0.0, 0.0], [1.0, 1000.0], [2.0, 0.0], [0.25, 2000.0], [0.5, 4000.0]
+        yield "Polygon", [[a, b, c, a, d, e]]
+        yield "Polygon", [[[0.0, 0.0], [3.0, 0.0], [3.0, 5000.0], [0.0, 5000.0]], [[1.0, 1000.0], [2.0, 1000.0], [2.0, 2000.0], [1.0, 1000.0], [1.5, 3000.0], [1.25, 3500.0]]]
+        yield "MultiPolygon", [[[a, b, c, a, d, e]], [[[5.0, 0.0], [6.0, 0.0], [6.0, 125.0]]]]
+        yield "LineString", [[1.0, 1000.0], [3.0, 1000.0], [2.0, 3000.0], [1.0, 1000.0]]
+        yield "LineString", [[1.0, 1000.0], [2.0, 2000.0], [1.0, 3000.0], [2.0, 2000.0], [3.0, 1000.0]]
+        yield "LineString", [[1.0, 1000.0], [2.0, 2000.0], [1.0, 1000.0], [3.0, 500.0]]
+        yield "MultiLineString", [[[1.0, 1000.0], [3.0, 1000.0], [2.0, 3000.0], [1.0, 1000.0], [4.0, 1000.0]]]
         # outlines with a zero-width 'whisker' (out to a tip and back along the same path) that carries the extreme time or
         # frequency: the bounds are those of the coordinates, whisker included
         for tip in ([3.0, 1000.0], [1.0, 2500.0], [-0.0, 500.0]):
